@@ -101,3 +101,36 @@ Example C01_example :
   events 5%N s = [Enter; Recur; Cease; Exit] /\
   events 1%N s = [Enter; Recur; Recur; Cease; Exit].
 Proof. vm_compute. repeat split. Qed.
+
+(* ---------- histories of runs ---------- *)
+From Hio Require Import Proofs.SchedHist Proofs.SchedDequeHold Proofs.SchedDequeTop Proofs.SchedDequeTop3 Proofs.SchedDequeHist.
+
+(* Completeness over histories (a first do()/ado(), then any reruns on the same
+   Doist or under new Doists), class W, no extra hypothesis on the reruns (any
+   limits, tymes, root doers): after every history that stays within the budget
+   every generator is finished, every doer's events are complete lifecycles, and
+   the newest event is the DoReturn/DoRaise of the root. *)
+Theorem C01_complete_histories_partial :
+  forall (T : Type) (TT : Time T) (cycles fuel : nat) (asyn : bool) (p : prog T) (h : list rerun),
+    W (p_defs p) -> oof (run_hist cycles fuel asyn p h) = false ->
+    (forall j, get_gen (run_hist cycles fuel asyn p h) j = GNew \/ get_gen (run_hist cycles fuel asyn p h) j = GDone) /\
+    (forall j, lives (events j (run_hist cycles fuel asyn p h))) /\
+    exists k t rest, trace (run_hist cycles fuel asyn p h) = {| e_kind := k; e_id := 0%N; e_tyme := t |} :: rest /\
+                     (k = DoReturn \/ k = DoRaise).
+Proof. intros. now apply run_hist_complete. Qed.
+Print Assumptions C01_complete_histories_partial.
+
+Example C01_complete_histories_example :
+  Wb (p_defs x_prog) = true /\ oof (run_hist 10 100 false x_prog x_hist) = false /\
+  oof (run_hist 10 100 true x_prog x_hist) = false.
+Proof. vm_compute. repeat split. Qed.
+
+(* outside W (D43) the leaked doer is carried into later runs *)
+Theorem C01_complete_histories_refuted :
+  exists (p : prog Z) (h : list rerun),
+    oof (run_hist 10 100 false p h) = false /\
+    events 4%N (run_hist 10 100 false p h) = [Enter; Recur; Recur; Cease; Exit] /\
+    In {| e_kind := Enter; e_id := 4%N; e_tyme := 0%Z |} (trace (run_hist 10 100 false p h)) /\
+    In {| e_kind := Recur; e_id := 4%N; e_tyme := 10%Z |} (trace (run_hist 10 100 false p h)).
+Proof. exact run_hist_complete_refuted. Qed.
+Print Assumptions C01_complete_histories_refuted.
